@@ -120,6 +120,9 @@ func (env *SpecEnv) eval(e *SExpr) *Value {
 		}
 		specFail("slicing of non-string in spec: %s", e)
 	case SQuant:
+		if e.Op == "lambda" {
+			return env.evalLambda(e)
+		}
 		n := env
 		var bound []*Term
 		var guards []*Term
@@ -144,6 +147,25 @@ func (env *SpecEnv) eval(e *SExpr) *Value {
 	}
 	specFail("cannot evaluate %s", e)
 	return nil
+}
+
+// evalLambda: `lambda k K :: body` is the total map k -> body, introduced as an array constant
+// named after the (hash-consed) body and defined by a quantified fact.
+func (env *SpecEnv) evalLambda(e *SExpr) *Value {
+	if len(e.Binders) != 1 {
+		specFail("lambda takes exactly one binder")
+	}
+	b := e.Binders[0]
+	ks := env.reg.specSortOf(env.pkg, b.Type)
+	bv := mkBVar("lam$"+b.Name, ks)
+	kt := env.reg.resolveSTypeOrNil(env.pkg, b.Type)
+	body := env.with(b.Name, &Value{K: VScalar, T: kt, S: bv}).eval(e.X)
+	if body.K != VScalar {
+		specFail("lambda body must be scalar")
+	}
+	arr := mkVar(fmt.Sprintf("lam!%d", body.S.id), SArray(ks, body.S.Sort))
+	env.sink().assume(Forall([]*Term{bv}, Eq(Select(arr, bv), body.S)))
+	return &Value{K: VScalar, SpecKind: "mmap", S: arr, T: body.T}
 }
 
 func (env *SpecEnv) lookupVar(name string) (*Value, bool) {
@@ -262,8 +284,8 @@ func (env *SpecEnv) field(x *Value, name string) *Value {
 	if n, ok := st.(*types.Named); ok && n.Obj().Pkg() != nil {
 		key := n.Obj().Pkg().Path() + "." + n.Obj().Name() + "." + name
 		if g, ok := env.reg.gfields[key]; ok {
-			if x.K != VScalar {
-				specFail("ghost field %s needs a pointer receiver", name)
+			if x.K != VScalar && x.K != VIface {
+				specFail("ghost field %s needs a pointer or interface receiver", name)
 			}
 			cls := "ghostf:" + key
 			return env.reg.specValue(env.reg.pkgs[n.Obj().Pkg().Path()], g.SType, func(path string, s *Sort) *Term {
@@ -552,18 +574,60 @@ func (env *SpecEnv) evalCall(e *SExpr) *Value {
 		case "substr":
 			return scalar(StrSubstr(arg(0).S, arg(1).S, arg(2).S), types.Typ[types.String])
 		case "typeIs":
-			// typeIs(x, "pkg.Type") : dynamic type of interface x
+			// typeIs(x, "*T") / typeIs(x, "T"): dynamic type of interface x is the package's type T
 			x := arg(0)
 			if x.K != VIface || e.Args[1].Kind != SStrLit {
 				specFail("typeIs(iface, \"type name\")")
 			}
-			id, ok := typeTags[e.Args[1].Name]
-			if !ok {
-				id = int64(len(typeTags) + 1)
-				typeTags[e.Args[1].Name] = id
-				typeTagNames[id] = e.Args[1].Name
+			tn := e.Args[1].Name
+			ptr := strings.HasPrefix(tn, "*")
+			tn = strings.TrimPrefix(tn, "*")
+			var ty types.Type
+			if i := strings.LastIndex(tn, "."); i >= 0 {
+				ty = env.reg.resolveSType(env.pkg, &SType{Kind: "name", Pkg: tn[:i], Name: tn[i+1:]})
+			} else {
+				ty = env.reg.resolveSType(env.pkg, &SType{Kind: "name", Name: tn})
 			}
-			return scalar(Eq(x.Typ, mkInt(id)), tb)
+			if ty == nil {
+				specFail("typeIs: unknown type %s", tn)
+			}
+			if ptr {
+				ty = types.NewPointer(ty)
+			}
+			return scalar(Eq(x.Typ, typeTag(ty)), tb)
+		case "as":
+			// as(x, "*T"): the pointer held by interface x, typed as *T (meaningful when typeIs(x, "*T"))
+			x := arg(0)
+			if x.K != VIface || e.Args[1].Kind != SStrLit {
+				specFail("as(iface, \"*T\")")
+			}
+			tn := strings.TrimPrefix(e.Args[1].Name, "*")
+			var ty types.Type
+			if i := strings.LastIndex(tn, "."); i >= 0 {
+				ty = env.reg.resolveSType(env.pkg, &SType{Kind: "name", Pkg: tn[:i], Name: tn[i+1:]})
+			} else {
+				ty = env.reg.resolveSType(env.pkg, &SType{Kind: "name", Name: tn})
+			}
+			if ty == nil {
+				specFail("as: unknown type %s", tn)
+			}
+			return scalar(x.S, types.NewPointer(ty))
+		case "contents":
+			// contents(s): the element map of slice s (index -> element), scalar element types only
+			x := arg(0)
+			if x.K != VSlice {
+				specFail("contents() needs a slice")
+			}
+			et := x.T.Underlying().(*types.Slice).Elem()
+			es, ok := scalarSort(et)
+			if !ok {
+				specFail("contents() needs scalar elements")
+			}
+			cls := elemClass(et)
+			noteClass(cls, SArray(SInt, es), false)
+			return &Value{K: VScalar, SpecKind: "mmap", T: et, S: Select(env.st.heapArr(cls, SArray(SInt, es)), x.Arr)}
+		case "bytes":
+			return &Value{K: VScalar, SpecKind: "mmap", T: types.Typ[types.Uint8], S: mkUF("bytesOf", SArray(SInt, SInt), arg(0).S)}
 		case "ifaceVal":
 			x := arg(0)
 			return scalar(x.S, nil)
@@ -672,6 +736,56 @@ func (r *Registry) resolveSTypeOrNil(pkg *packages.Package, t *SType) types.Type
 	return r.resolveSType(pkg, t)
 }
 
+// specLV resolves a field-selection expression to the heap l-value it denotes (nil if none).
+func (env *SpecEnv) specLV(e *SExpr) *lvalue {
+	if e.Kind != SField {
+		return nil
+	}
+	x := env.eval(e.X)
+	if x.T == nil {
+		return nil
+	}
+	var base *lvalue
+	t := x.T
+	if x.Alias != nil {
+		base = x.Alias
+		if pt, ok := t.Underlying().(*types.Pointer); ok {
+			t = pt.Elem()
+		}
+	} else if pt, ok := t.Underlying().(*types.Pointer); ok {
+		base = &lvalue{kind: lvHeap, T: pt.Elem(), ref: x.S, prefix: structClass(pt.Elem())}
+		t = pt.Elem()
+	} else {
+		base = env.specLV(e.X)
+		if base == nil {
+			return nil
+		}
+	}
+	var pkg *types.Package
+	if n, ok := t.(*types.Named); ok {
+		pkg = n.Obj().Pkg()
+	}
+	obj, path, _ := types.LookupFieldOrMethod(t, true, pkg, e.Name)
+	if _, ok := obj.(*types.Var); !ok {
+		return nil
+	}
+	lv := base
+	for _, idx := range path {
+		if pt, isPtr := t.Underlying().(*types.Pointer); isPtr {
+			v := env.st.load(lv)
+			lv = &lvalue{kind: lvHeap, T: pt.Elem(), ref: v.S, prefix: structClass(pt.Elem())}
+			t = pt.Elem()
+		}
+		stt, ok := t.Underlying().(*types.Struct)
+		if !ok {
+			return nil
+		}
+		lv = lv.field(stt, idx)
+		t = stt.Field(idx).Type()
+	}
+	return lv
+}
+
 // evalModLoc turns a modifies entry into heap classes.
 func (env *SpecEnv) evalModLoc(e *SExpr) []modLoc {
 	switch e.Kind {
@@ -698,41 +812,18 @@ func (env *SpecEnv) evalModLoc(e *SExpr) []modLoc {
 				return out
 			}
 		}
-		var pkg *types.Package
-		if n != nil {
-			pkg = n.Obj().Pkg()
+		lv := env.specLV(e)
+		if lv == nil || (lv.kind != lvHeap && lv.kind != lvElem) {
+			specFail("modifies: %s is not a heap location", e)
 		}
-		obj, path, _ := types.LookupFieldOrMethod(x.T, true, pkg, e.Name)
-		fv, ok := obj.(*types.Var)
-		if !ok {
-			specFail("modifies: %s is not a field", e)
-		}
-		// compute class prefix along the path
-		t := x.T
-		ref := x.S
-		prefix := ""
-		var lv *lvalue
-		if x.Alias != nil {
-			lv = x.Alias
-		}
-		for i, idx := range path {
-			if pt, isPtr := t.Underlying().(*types.Pointer); isPtr {
-				if i > 0 {
-					// embedded pointer: load it
-					ref = env.st.loadLeaf(prefix, SInt, ref)
-				}
-				prefix = structClass(pt.Elem())
-				t = pt.Elem()
-			}
-			stt := t.Underlying().(*types.Struct)
-			prefix += "." + stt.Field(idx).Name()
-			t = stt.Field(idx).Type()
-		}
-		_ = lv
 		var out []modLoc
-		for _, l := range leavesOf(fv.Type()) {
-			noteClass(prefix+l.Path, l.Sort, false)
-			out = append(out, modLoc{class: prefix + l.Path, ref: ref})
+		for _, l := range leavesOf(lv.T) {
+			srt := l.Sort
+			if lv.kind == lvElem {
+				srt = SArray(SInt, l.Sort)
+			}
+			noteClass(lv.prefix+l.Path, srt, false)
+			out = append(out, modLoc{class: lv.prefix + l.Path, ref: lv.ref})
 		}
 		return out
 	case SIdent:
